@@ -1,6 +1,7 @@
 #!/usr/bin/env python3
 """run the property's own check (and optionally others) against every seeded change; writes seeded/MATRIX.json.
-/repo is modified only between `git apply` and `git checkout -- .`"""
+The patches are applied in a scratch worktree of /repo HEAD (MATRIX_WT, default /tmp/mxwt) that the checks read through VERIF_REPO;
+/repo itself is never modified."""
 import json, os, re, subprocess, sys
 V = '/verif'
 only = sys.argv[1:]
@@ -8,24 +9,29 @@ out = {}
 mp = os.path.join(V, 'seeded', 'MATRIX.json')
 if os.path.exists(mp):
     out = json.load(open(mp))
-assert subprocess.run(['git', '-C', '/repo', 'status', '--porcelain', '--untracked-files=no'], stdout=subprocess.PIPE).stdout.strip() == b'', '/repo not clean'
+WT = os.environ.get('MATRIX_WT', '/tmp/mxwt')
+if not os.path.isdir(WT):
+    subprocess.run(['git', '-C', '/repo', 'worktree', 'add', '-q', '--detach', WT, 'HEAD'], check=True)
+subprocess.run(['git', '-C', WT, 'checkout', '-q', '--detach', subprocess.run(['git', '-C', '/repo', 'rev-parse', 'HEAD'], stdout=subprocess.PIPE, universal_newlines=True).stdout.strip()], check=True)
+subprocess.run(['git', '-C', WT, 'checkout', '-q', '--', '.'], check=True)
+ENV = dict(os.environ, VERIF_REPO=WT)
 for d in sorted(os.listdir(os.path.join(V, 'seeded'))):
     p = os.path.join(V, 'seeded', d)
     if not os.path.isdir(p) or (only and d not in only) or not os.path.exists(os.path.join(p, 'meta.json')):
         continue
     meta = json.load(open(os.path.join(p, 'meta.json')))
     pid = meta['breaks_property']
-    r = subprocess.run(['git', '-C', '/repo', 'apply', os.path.join(p, 'patch.diff')])
+    r = subprocess.run(['git', '-C', WT, 'apply', os.path.join(p, 'patch.diff')])
     if r.returncode != 0:
         out[d] = {'error': 'patch does not apply'}
         continue
     try:
-        c = subprocess.run([os.path.join(V, 'check'), pid], stdout=subprocess.PIPE, stderr=subprocess.STDOUT, universal_newlines=True, cwd=V)
+        c = subprocess.run([os.path.join(V, 'check'), pid], stdout=subprocess.PIPE, stderr=subprocess.STDOUT, universal_newlines=True, cwd=V, env=ENV)
         keys = re.findall(r'rule=(\S+) key=(\S+)', c.stdout)
         unan = 'UNANALYSABLE' in c.stdout
         out[d] = {'property': pid, 'rc': c.returncode, 'violations': ['%s %s' % k for k in keys], 'unanalysable_only': unan and all('UNANALYSABLE' in l for l in re.findall(r'^  (?!rule=)(.*)$', c.stdout, re.M)[:len(keys)])}
     finally:
-        subprocess.run(['git', '-C', '/repo', 'checkout', '--', '.'])
+        subprocess.run(['git', '-C', WT, 'checkout', '--', '.'])
     print(d, out[d]['rc'], out[d]['violations'][:2], flush=True)
     json.dump(out, open(mp, 'w'), indent=1, sort_keys=True)
 json.dump(out, open(mp, 'w'), indent=1, sort_keys=True)
